@@ -273,6 +273,19 @@ func (h *Hist) Actions() map[string]func(*rapid.T) {
 			w.OpenHold(o, inst, asReader, chunk)
 			w.Poll()
 		}
+		a["getLimited"] = func(t *rapid.T) {
+			o := PickObj(t, w, "obj")
+			if o == nil {
+				fallback()
+				return
+			}
+			inst := rapid.SampledFrom(InstanceNames).Draw(t, "inst")
+			max := rapid.IntRange(0, cfg.BlockSize()).Draw(t, "max")
+			asProto := rapid.IntRange(0, 3).Draw(t, "asProto") == 0
+			c.Add("getLimited", o.ID, inst, max, asProto)
+			w.GetLimited(o, inst, max, asProto)
+			w.Poll()
+		}
 		a["holdread"] = func(t *rapid.T) {
 			hs := w.OpenHolds()
 			if len(hs) == 0 {
@@ -445,6 +458,47 @@ func (h *Hist) Actions() map[string]func(*rapid.T) {
 			}
 			if w.St.BL.PopFronts != pops {
 				h.RotationInStateWrite++
+			}
+		}
+		// Both state writers overlapping: the put syncer is parked inside
+		// the state store, a rotation pops a block, the release syncer is
+		// started (must block on the store lock), the put syncer finishes.
+		a["raceStateWriters"] = func(t *rapid.T) {
+			sy := w.syn()
+			if !(holdsStoreLock(sy.S) && sy.R == nil) {
+				switch {
+				case w.CanStepS():
+					w.StepS(0)
+				case sy.S == nil && !sy.ShutdownDone && w.PutWakeupPending():
+					w.StartS()
+				default:
+					fallback()
+				}
+				return
+			}
+			c.Add("raceStateWriters")
+			pops := w.St.BL.PopFronts
+			for i := 0; i < 24 && w.St.BL.PopFronts == pops && !w.Closed; i++ {
+				size := cfg.BlockSize()/2 + 1
+				if size > cfg.BlockSize() {
+					size = cfg.BlockSize()
+				}
+				var u *Upload
+				if cfg.Mutable {
+					u = w.StartPut(w.NewACObject(), "", "good", w.ACContent(size), nil, nil)
+				} else {
+					o := w.NewObject(size, Functions[0])
+					u = w.StartPut(o, "", "good", o.Data, nil, nil)
+				}
+				w.FinishPut(u)
+			}
+			if w.St.BL.PopFronts == pops || !w.ReleaseWakeupPending() {
+				return
+			}
+			h.RotationInStateWrite++
+			w.StartR() // special move: expected to block on the store lock
+			if w.CanStepS() {
+				w.StepS(0) // the put syncer's write completes and notifies
 			}
 		}
 		a["drain"] = func(t *rapid.T) {
